@@ -267,7 +267,7 @@ class TimeStamp(TdmsType):
         if not isinstance(value, np.datetime64):
             value = np.datetime64(value, 'us')
         self.value = value
-        epoch_delta = value - self._tdms_epoch
+        epoch_delta = value.astype('datetime64[us]') - self._tdms_epoch
 
         seconds = int(epoch_delta // np.timedelta64(1, 's'))
         remainder = epoch_delta - np.timedelta64(seconds, 's')
